@@ -227,8 +227,23 @@ class Picc(object):
             self._activated(frame_size(fsdi))
             # TL, T0 (TA,TB,TC follow | FSCI), TA (106 only), TB (FWI|SFGI),
             # TC (no NAD, no CID)
-            return bytes([5, 0x70 | self.fsci, 0x00,
-                          (self.fwi << 4) | self.sfgi, 0x00])
+            # `ats_form` selects which interface bytes are present (every
+            # subset is standard conformant); without TB(1) the default FWI
+            # 4 applies, so such a card must be built with fwi=4
+            form = getattr(self, 'ats_form', 'abc')
+            t0 = self.fsci | (0x10 if 'a' in form else 0) \
+                | (0x20 if 'b' in form else 0) | (0x40 if 'c' in form else 0)
+            body = bytes([t0])
+            if 'a' in form:
+                body += bytes([getattr(self, 'ats_ta', 0x00)])
+            if 'b' in form:
+                body += bytes([(self.fwi << 4) | self.sfgi])
+            else:
+                assert self.fwi == 4, "no TB(1): FWI is the default 4"
+            if 'c' in form:
+                body += b'\x00'
+            body += getattr(self, 'ats_hist', b'')
+            return bytes([len(body) + 1]) + body
         if len(frame) < 9 or frame[0] != 0x1D or frame[1:5] != self.uid[:4]:
             return None                           # not ATTRIB for this card
         if frame[7] & 0x0F != 0x01:               # protocol type 14443-4
